@@ -257,6 +257,7 @@ func (f *Frame) staticCall(st *execState, fn *ssa.Function, args, free []Val, rt
 		g.counters = f.counters
 		g.inlineSet = f.inlineSet
 		g.parent = f
+		g.parentEnv = st.env
 		if len(f.unp) > 0 {
 			g.unp = f.unp
 			g.unpIn = map[*unpObj]Val{}
@@ -811,7 +812,7 @@ func (f *Frame) loopFrameCheck(st *execState, ghost string, addr, size *Term, po
 	if f.parent != nil {
 		f.parent.loopFrameCheck(st, ghost, addr, size, pos, what)
 	}
-	if f.curBlock == nil || len(f.loopMods) == 0 {
+	if f.curBlock == nil || len(f.loopMods) == 0 || f.e.noSafety {
 		return
 	}
 	e := f.e
@@ -838,10 +839,21 @@ func (f *Frame) loopFrameCheck(st *execState, ghost string, addr, size *Term, po
 		if addr != nil {
 			alts = append(alts, tb.Eq(size, tb.ConstU(0, 64)))
 			if ghost == "" {
-				alts = append(alts, tb.Ule(tb.ConstU(preLimit, 64), addr))
-				for _, r := range f.allocs {
-					off := tb.Sub(addr, r.ptr)
-					alts = append(alts, tb.And(tb.Ule(size, r.size), tb.Ule(off, tb.Sub(r.size, size))))
+				// fresh memory, but not a region the loop declares it keeps
+				fresh := tb.Ule(tb.ConstU(preLimit, 64), addr)
+				for _, k := range f.loopKeeps[li] {
+					if k.ghost != "" {
+						continue
+					}
+					// disjoint: addr+size <= k.lo or k.lo+k.n <= addr
+					fresh = tb.And(fresh, tb.Or(tb.Ule(tb.Add(addr, size), k.lo), tb.Ule(tb.Add(k.lo, k.n), addr)))
+				}
+				alts = append(alts, fresh)
+				if len(f.loopKeeps[li]) == 0 {
+					for _, r := range f.allocs {
+						off := tb.Sub(addr, r.ptr)
+						alts = append(alts, tb.And(tb.Ule(size, r.size), tb.Ule(off, tb.Sub(r.size, size))))
+					}
 				}
 			}
 		}
